@@ -210,6 +210,9 @@ func (fe *FuncEnc) instr(ins ssa.Instruction, st *State) {
 	case *ssa.Field:
 		info := fe.sorts().infoOf(x.X.Type())
 		fe.setVal(x, fmt.Sprintf("(|%s| %s)", info.fields[x.Field].accessor, fe.val(x.X)))
+		if fe.sc.taint && isString(x.Type()) && fe.repoStruct(x.X.Type()) && !fe.eng.cs.DirtyStrings[fieldKey(x.X.Type(), x.Field)] {
+			fe.assume(st, "(sf_clean "+fe.vals[x]+")")
+		}
 	case *ssa.IndexAddr:
 		if _, ok := fe.localRoot(x.X); ok || fe.isPathAddr(x.X) {
 			at := x.X.Type().Underlying().(*types.Pointer).Elem().Underlying().(*types.Array)
@@ -256,6 +259,9 @@ func (fe *FuncEnc) instr(ins ssa.Instruction, st *State) {
 		}
 		if a.leaf {
 			fe.curTarget = a.baseVal
+		}
+		if key, ok := fe.cleanFieldKey(a); ok && fe.taintOn() {
+			fe.oblige(st, "taint", key, "(sf_clean "+fe.val(x.Val)+")", x.Pos(), "diagnostic text "+key+" contains no string taken from a value")
 		}
 		if lock, key, ok := fe.guardOf(a); ok {
 			fe.oblige(st, "guard", "write."+key, "(= "+fe.lockHeld(st, lock)+" 2)", x.Pos(), "guarded field "+key+" is written with its lock held exclusively")
@@ -381,6 +387,76 @@ func (fe *FuncEnc) addrEscapes(x ssa.Value) bool {
 			}
 		default:
 			return true
+		}
+	}
+	return false
+}
+
+func (fe *FuncEnc) taintOn() bool {
+	c := fe.root().c
+	return fe.sc.taint && c != nil && c.Taint
+}
+
+func fieldKey(t types.Type, field int) string {
+	st, ok := t.Underlying().(*types.Struct)
+	if !ok || field >= st.NumFields() {
+		return ""
+	}
+	return typeLabel(t) + "." + st.Field(field).Name()
+}
+
+// repoStruct: a named struct type defined in the repository.
+func (fe *FuncEnc) repoStruct(t types.Type) bool {
+	n, ok := t.(*types.Named)
+	if !ok {
+		return false
+	}
+	_, isStruct := n.Underlying().(*types.Struct)
+	if !isStruct || n.Obj().Pkg() == nil {
+		return false
+	}
+	p := n.Obj().Pkg().Path()
+	// (cty function parameter descriptions are application-defined names, not value content)
+	// (cty function parameter descriptions and attribute-path steps are names, not value content)
+	return strings.HasPrefix(p, repoModule) || (p == "github.com/zclconf/go-cty/cty/function" && n.Obj().Name() == "Parameter") || (p == "github.com/zclconf/go-cty/cty" && n.Obj().Name() == "GetAttrStep")
+}
+
+// cleanFieldKey: the stored-to location is a field declared with verif:cleanfield.
+func (fe *FuncEnc) cleanFieldKey(a addr) (string, bool) {
+	if !a.leaf || a.owner == nil || len(a.path) != 0 {
+		return "", false
+	}
+	k := fieldKey(a.owner, a.field)
+	return k, fe.eng.cs.CleanFields[k]
+}
+
+// sourceString: the loaded string lives in a field of a struct defined in the
+// repository (syntax tree, schema, traversal, specification: program or
+// configuration text, not value content) and is not declared dirty.
+func (fe *FuncEnc) sourceString(a addr) bool {
+	if a.leaf && a.owner != nil && len(a.path) == 0 {
+		return fe.repoStruct(a.owner) && !fe.eng.cs.DirtyStrings[fieldKey(a.owner, a.field)]
+	}
+	if len(a.path) > 0 && a.rootTyp != nil {
+		// string inside a plain-data struct value: judge by the innermost struct
+		t := a.rootTyp
+		for i, pe := range a.path {
+			if pe.index != "" {
+				at, ok := t.Underlying().(*types.Array)
+				if !ok {
+					return false
+				}
+				t = at.Elem()
+				continue
+			}
+			stT, ok := t.Underlying().(*types.Struct)
+			if !ok {
+				return false
+			}
+			if i == len(a.path)-1 {
+				return fe.repoStruct(t) && !fe.eng.cs.DirtyStrings[fieldKey(t, pe.field)]
+			}
+			t = stT.Field(pe.field).Type()
 		}
 	}
 	return false
@@ -536,6 +612,9 @@ func (fe *FuncEnc) unop(x *ssa.UnOp, st *State) {
 		fe.setVal(x, fe.load(st, a))
 		if lock, _, ok := fe.guardOf(a); ok {
 			fe.guardedVals[fe.vals[x]] = lock
+		}
+		if fe.sc.taint && isString(x.Type()) && fe.sourceString(a) {
+			fe.assume(st, "(sf_clean "+fe.vals[x]+")")
 		}
 		if a.local == nil {
 			if !(a.leaf || len(a.path) == 0) || isStructVal(a.rootTyp) {
